@@ -17,6 +17,8 @@ struct SendSpec {
     cancel: Option<CancelHow>,
     use_idlocation: bool,
     to_self_by_id: bool,
+    /// the literal id attribute (a send may reuse the id of the send before it)
+    id: String,
 }
 
 #[derive(Clone, Debug, PartialEq)]
@@ -91,7 +93,11 @@ fn scenario(rng: &mut Rng, thorough: bool, dm: &str) -> Outcome {
             _ => None,
         };
         let use_idlocation = cancel == Some(CancelHow::Immediately) && rng.chance(1, 3);
+        // two pending sends may carry the same id: both are delivered (and one <cancel> hits both)
+        let share = i > 0 && cancel.is_none() && sends[i - 1].cancel.is_none() && !sends[i - 1].use_idlocation && rng.chance(1, 5);
+        let id = if share { sends[i - 1].id.clone() } else { format!("u{}", i) };
         sends.push(SendSpec {
+            id,
             uid: format!("u{}", i),
             delay_ms: d,
             spelling: spell(d, rng),
@@ -107,7 +113,7 @@ fn scenario(rng: &mut Rng, thorough: bool, dm: &str) -> Outcome {
         data.push_str(&format!("<data id=\"del_{}\" expr=\"'{}'\"/>", s.uid, s.spelling));
     }
     for (i, s) in sends.iter().enumerate() {
-        let idattr = if s.use_idlocation { "idlocation=\"loc\"".to_string() } else { format!("id=\"{}\"", s.uid) };
+        let idattr = if s.use_idlocation { "idlocation=\"loc\"".to_string() } else { format!("id=\"{}\"", s.id) };
         let delayattr = if i % 3 == 2 { format!("delayexpr=\"del_{}\"", s.uid) } else { format!("delay=\"{}\"", s.spelling) };
         let target = if s.to_self_by_id { " targetexpr=\"'#_scxml_' + toString(_sessionid)\"" } else { "" };
         body.push_str(&format!(
@@ -320,8 +326,16 @@ fn scenario(rng: &mut Rng, thorough: bool, dm: &str) -> Outcome {
         } else {
             // never arrived although the barrier event, due at least 100 ms later, was delivered
             if !effective_cancel {
+                let shared = sends.iter().any(|y| y.uid != s.uid && y.id == s.id);
                 out.violations.push((
-                    if s.cancel == Some(CancelHow::OtherSession) { "cancel-from-other-session-took-effect" } else { "delayed-event-lost" }.to_string(),
+                    if s.cancel == Some(CancelHow::OtherSession) {
+                        "cancel-from-other-session-took-effect"
+                    } else if shared {
+                        "delayed-event-lost:id-shared-with-another-pending-send"
+                    } else {
+                        "delayed-event-lost"
+                    }
+                    .to_string(),
                     format!("event {} (delay {}) was never delivered although it was not cancelled and the barrier event (due >= 100 ms later) was delivered", s.uid, s.spelling),
                 ));
             } else {
